@@ -169,12 +169,47 @@ fn ren_onst_nrb(balance_cr: &HashMap<Carrier, BalanceCarrier>, k_exp: f32) -> (f
         .get(&Carrier::ELECTRICIDAD)
         .map(|cr| cr.we.exp_a.ren)
         .unwrap_or(0.0);
-    // 4. Add all contributions
+    // 4. Part of those resources that was counted in each perimeter
+    // Exported onsite electricity (excl. cogen), weighted as the onsite delivered electricity
+    let ren_el_exp_a_onst = balance_cr
+        .get(&Carrier::ELECTRICIDAD)
+        .map(|cr| {
+            let exp_onst_an = cr
+                .exp
+                .by_src_an
+                .get(&ProdSource::EL_INSITU)
+                .copied()
+                .unwrap_or(0.0);
+            if cr.del.onst_an > 0.0 {
+                exp_onst_an * cr.we.del_onst.ren / cr.del.onst_an
+            } else {
+                0.0
+            }
+        })
+        .unwrap_or(0.0);
+    // Exported cogenerated electricity: only the share of the cogeneration input
+    // that has been counted as nearby (nearby carriers in 1. and electricity in 3.)
+    let ren_cgn_in = balance_cr
+        .values()
+        .map(|bal| bal.we.del_cgn.ren)
+        .sum::<f32>();
+    let ren_cgn_in_nrb = balance_cr
+        .iter()
+        .filter(|(carrier, _)| carrier.is_nearby() || **carrier == Carrier::ELECTRICIDAD)
+        .map(|(_, bal)| bal.we.del_cgn.ren)
+        .sum::<f32>();
+    let ren_el_exp_a_cgn_nrb = if ren_cgn_in > 0.0 {
+        (ren_el_exp_a - ren_el_exp_a_onst) * ren_cgn_in_nrb / ren_cgn_in
+    } else {
+        0.0
+    };
+    // 5. Add all contributions
     (
         // Onsite
-        ren_onst_cr + ren_el_onst,
+        ren_onst_cr + ren_el_onst - (1.0 - k_exp) * ren_el_exp_a_onst,
         // Nearby
-        ren_nrb_cr + ren_el_onst + ren_el_cgn - (1.0 - k_exp) * ren_el_exp_a,
+        ren_nrb_cr + ren_el_onst + ren_el_cgn
+            - (1.0 - k_exp) * (ren_el_exp_a_onst + ren_el_exp_a_cgn_nrb),
     )
 }
 
